@@ -3,6 +3,7 @@ mod cxxgen;
 mod drive;
 mod front;
 mod front2;
+mod javagen;
 mod pygen;
 mod rustgen;
 
@@ -41,6 +42,7 @@ fn main() {
                 "C11" => c11::check(tier),
                 "C13" => pygen::check(tier),
                 "C14" => cxxgen::check(tier),
+                "C19" => javagen::check(tier),
                 p @ ("C01" | "C02" | "C03" | "C04" | "C05" | "C06" | "C15" | "C17" | "C18") => rustgen::check(p, tier),
                 _ => usage(),
             };
